@@ -81,6 +81,21 @@ def shared_line_case(n=3):
             'registered': ['f', 'f_k', 'g'], 'twin_mode': None}
 
 
+def same_site_twins_case(n=4):
+    """a copied plug-in file loaded twice under one module name: two functions with the same module name, qualified name and line, in different
+    files, both handed to the profiler as a decorator is (`profile(f)`)"""
+    body = '__name__ = "plugin"\ndef handle(n):\n    a = n\n    for i in range(n):\n        a += i\n    return a\n\n\n'
+    f0 = body + 'handle_a = handle\ndef call_a(n):\n    return handle(n) + 1\n'
+    f1 = body + 'handle_b = handle\ndef call_b(n):\n    return handle(n) + 2\n'
+    main = 'def driver(n):\n    out = []\n    for k in range(3):\n        out.append(call_a(n))\n    for k in range(5):\n        out.append(call_b(n + 1))\n    return out\n'
+    prog = {'files': [['prog_lib.py', progs.PRELUDE], ['prog_0.py', f0], ['prog_1.py', f1], ['prog_main.py', main]],
+            'funcs': [['prog_0.py', 'handle_a', 'plain'], ['prog_0.py', 'call_a', 'plain'], ['prog_1.py', 'handle_b', 'plain'], ['prog_1.py', 'call_b', 'plain'],
+                      ['prog_main.py', 'driver', 'plain']],
+            'driver': 'driver', 'features': ['same-site-twins']}
+    return {'prog': prog, 'steps': [['decorate', 'handle_a'], ['decorate', 'handle_b'], ['enbc'], ['call', n], ['disbc'], ['snapshot']], 'mode': 'window',
+            'registered': ['handle_a', 'handle_b'], 'twin_mode': 'same_name_same_lines'}
+
+
 def same_name_twins_case(via_module, n=4):
     """two files holding the same function under the same name on the same lines (a copied module), each with a caller of its own"""
     body = 'def handle(n):\n    a = n\n    for i in range(n):\n        a += i\n    return a\n\n\n'
@@ -174,7 +189,7 @@ def run(ctx):
         for f in sorted(os.listdir(corpus_dir)):
             cases.append(json.load(open(os.path.join(corpus_dir, f))))
     ncorpus = len(cases)
-    cases += [same_name_twins_case(True), same_name_twins_case(True, 2), same_name_twins_case(False), shared_line_case(), shared_line_case(1)]
+    cases += [same_name_twins_case(True), same_name_twins_case(True, 2), same_name_twins_case(False), shared_line_case(), shared_line_case(1), same_site_twins_case(), same_site_twins_case(2)]
     for i in range(n):
         cases.append(make_case(ctx.rng.fork('case%d' % i)))
     ctx.log('running %d cases (%d from corpus)' % (len(cases), ncorpus))
